@@ -1102,7 +1102,7 @@ impl W {
         self.set_ctx("C05");
         self.domain(&["C05"]);
         let k = self.rng.below(self.nst);
-        let how = self.rng.below(6) as u8;
+        let how = self.rng.below(8) as u8;
         let drivers = self.env.drivers.clone();
         drivers[k].register(self.world_mut(), how);
         self.env.registered.lock().unwrap()[k] = true;
@@ -1169,7 +1169,7 @@ fn run_case(rep: &mut Report, case: u64) {
     // initial registrations: most storages now, some later
     for k in 0..nst {
         if w.rng.chance(4, 5) {
-            let how = w.rng.below(6) as u8;
+            let how = w.rng.below(8) as u8;
             let drivers = w.env.drivers.clone();
             drivers[k].register(w.world_mut(), how);
             w.env.registered.lock().unwrap()[k] = true;
